@@ -306,14 +306,35 @@ def hrnpChecksum (checked : Bytes) : Nat := 65535 - fold16 (words16 checked).sum
 
 def be16 (bs : Bytes) : Nat := bs.foldl (fun acc b => acc * 256 + b) 0
 
-/-- `checksum_correct` after `HRNP.from_bytes(d)`; `hdapFails` = the HDAP stage raised -/
-def hrnpDec (d : Bytes) (hdapFails : Bool) : Except IErr Bool := do
+/-- `checksum_correct` after `HRNP.from_bytes(d)` **before the length cross-check** (the code between
+4e51d6f and the repair of the length octets; also the first part of the present function): the
+checksum verdict over the received octets; `hdapFails` = the HDAP stage raised -/
+def hrnpDecOld (d : Bytes) (hdapFails : Bool) : Except IErr Bool := do
   if d.length < 12 then throw .assertionError
   let plen := be16 ((d.take 10).drop 8)
   if d.length < plen then throw .assertionError
   if !(hrnpOpcodes.contains (d.getD 3 0)) then throw .valueError
   if hdapFails then throw .hdap
   pure (hrnpChecksum (d.take 10 ++ (d.take plen).drop 12) == be16 ((d.take 12).drop 10))
+
+/-- `int.from_bytes(data[15:17], byteorder=hrnp.data.get_endianness())`: the payload-length field of the
+carried HDAP message, little-endian for RCP (service 0x02, the only class that overrides
+`get_endianness`), big-endian otherwise; a short buffer gives a short slice -/
+def hrnpInnerLen (d : Bytes) : Nat :=
+  if d.getD 12 0 % 128 = 2 then be16 ((d.take 17).drop 15).reverse else be16 ((d.take 17).drop 15)
+
+/-- the cross-check added by the repair: a DATA packet is 12 header octets and one HDAP message of
+7 + payload-length octets (`isinstance(hrnp.data, HDAP)` holds whenever this line is reached with
+opcode DATA: `data = None` raised `TypeError` in the constructor, which is `hdapFails`) -/
+def hrnpLenOk (d : Bytes) : Bool :=
+  if d.getD 3 0 = hrnpData then decide (be16 ((d.take 10).drop 8) = 12 + 7 + hrnpInnerLen d) else true
+
+/-- `checksum_correct` after `HRNP.from_bytes(d)` as it is now: the verdict on the received octets
+(`hrnpDecOld`, every raising statement is in there) and the length cross-check -/
+def hrnpDec (d : Bytes) (hdapFails : Bool) : Except IErr Bool :=
+  match hrnpDecOld d hdapFails with
+  | .error e => .error e
+  | .ok b => .ok (b && hrnpLenOk d)
 
 /-- `HRNP.as_bytes`: header octets, length, checksum over header ‖ payload, payload (`inner` is the
 HDAP serialisation for a DATA packet, empty otherwise; `len(self)` = 12 + its length) -/
